@@ -20,6 +20,13 @@ written (`ctx.Err() != nil && cacheFound`), kept for the documented counterexamp
 One invocation reads one remote node here; `Remote.Chain` adds the remote Taskfile that node's
 content includes (second node, same `readRemote`, one shared `--timeout` deadline).
 
+**The cache is keyed injectively by URL.**  `RState.ent : Nat → Entry` gives every URL (`Url.id`)
+its own three files: two URLs that differ in anything — scheme, host, path, letter case, a doubled
+slash, the query string — are different keys and never see each other's content, checksum or
+timestamp (`C20_frame`).  The code's key is `HTTPNode.CacheKey`: the SHA-256 of the *whole* URL
+string (`Tie.remote_cacheKey_ok`); the harness reads URLs that differ only in the query / case /
+slashes in successive steps over one cache directory.
+
 Contents and checksums are abstract numbers; `sha : Content → Sum` is a parameter about
 which nothing is assumed.  Time is a logical clock (`now`), advanced by `Step.dt`.
 -/
